@@ -919,6 +919,11 @@ _RF_BODY_INPLACE_FRESH = '        C = 2 * np.pi * np.random.rand(output_dim, num
 _ALT_OLD = 'def number_range_alternate(number_type=Number):\n    """\n    Validator function that coerces a list [start, stop] into a dictionary\n    Uses specific type number_type\n    """\n    def validatorfunc(config_as_list):\n        alternate_form = Schema(All(\n            [number_type, number_type],\n            Length(min=2, max=2)\n        ))\n        config_as_list = alternate_form(config_as_list)\n        return {\'start\': config_as_list[0], \'stop\': config_as_list[1]}\n    return validatorfunc\n\n'
 _ALT_HOISTED_NUMBER = 'RANGE_AS_LIST = Schema(All(\n    [Number, Number],\n    Length(min=2, max=2)\n))\n\ndef number_range_alternate(number_type=Number):\n    """\n    Validator function that coerces a list [start, stop] into a dictionary\n    Uses specific type number_type\n    """\n    def validatorfunc(config_as_list):\n        config_as_list = RANGE_AS_LIST(config_as_list)\n        return {\'start\': config_as_list[0], \'stop\': config_as_list[1]}\n    return validatorfunc\n\n'
 _ALT_HELPER = 'def number_range_alternate(number_type=Number):\n    """\n    Validator function that coerces a list [start, stop] into a dictionary\n    Uses specific type number_type\n    """\n    alternate_form = Schema(All(\n        [number_type, number_type],\n        Length(min=2, max=2)\n    ))\n\n    def validatorfunc(config_as_list):\n        checked = alternate_form(config_as_list)\n        return {\'start\': checked[0], \'stop\': checked[1]}\n    return validatorfunc\n\n'
+_REFUSALS_OLD = '        # A couple of cases that are possible but we can\'t handle:\n        if self.config[\'determinant\'] == 0:\n            if self.config[\'traceless\']:\n                raise ConfigError("Unable to generate zero determinant traceless matrices")\n            if self.config[\'symmetry\'] == \'antisymmetric\':\n                # Real antisymmetric matrices in odd dimension automatically have zero determinant\n                if self.config[\'complex\']:\n                    raise ConfigError("Unable to generate complex zero determinant antisymmetric matrices")\n                if self.config[\'dimension\'] % 2 == 0:\n                    raise ConfigError("Unable to generate real zero determinant antisymmetric matrices in even dimensions")\n        # And a handful of cases that don\'t exist\n        if self.config[\'determinant\'] == 1:\n            if self.config[\'dimension\'] == 2 and self.config[\'traceless\']:\n                if self.config[\'symmetry\'] == \'diagonal\' and not self.config[\'complex\']:\n                    raise ConfigError("No real, traceless, unit-determinant, diagonal 2x2 matrix exists")\n                elif self.config[\'symmetry\'] == \'symmetric\' and not self.config[\'complex\']:\n                    raise ConfigError("No real, traceless, unit-determinant, symmetric 2x2 matrix exists")\n                elif self.config[\'symmetry\'] == \'hermitian\':\n                    raise ConfigError("No traceless, unit-determinant, Hermitian 2x2 matrix exists")\n            if self.config[\'dimension\'] % 2 == 1:  # Odd dimension\n                if self.config[\'symmetry\'] == \'antisymmetric\':\n                    # Eigenvalues are all imaginary, so determinant is imaginary\n                    raise ConfigError("No unit-determinant antisymmetric matrix exists in odd dimensions")\n                if self.config[\'symmetry\'] == \'antihermitian\':\n                    # Eigenvalues are all imaginary, so determinant is imaginary\n                    raise ConfigError("No unit-determinant antihermitian matrix exists in odd dimensions")\n\n'
+_REFUSALS_TABLE_SLIP = '        symmetry = self.config[\'symmetry\']\n        is_complex = self.config[\'complex\']\n        zero_det = self.config[\'determinant\'] == 0\n        unit_det = self.config[\'determinant\'] == 1\n        odd = self.config[\'dimension\'] % 2 == 1\n        traceless_2x2 = self.config[\'traceless\'] and self.config[\'dimension\'] == 2\n        unsupported = (\n            (zero_det and traceless_2x2,\n             "Unable to generate zero determinant traceless matrices"),\n            (zero_det and symmetry == \'antisymmetric\' and is_complex,\n             "Unable to generate complex zero determinant antisymmetric matrices"),\n            (zero_det and symmetry == \'antisymmetric\' and not odd,\n             "Unable to generate real zero determinant antisymmetric matrices in even dimensions"),\n            (unit_det and traceless_2x2 and symmetry == \'diagonal\' and not is_complex,\n             "No real, traceless, unit-determinant, diagonal 2x2 matrix exists"),\n            (unit_det and traceless_2x2 and symmetry == \'symmetric\' and not is_complex,\n             "No real, traceless, unit-determinant, symmetric 2x2 matrix exists"),\n            (unit_det and traceless_2x2 and symmetry == \'hermitian\',\n             "No traceless, unit-determinant, Hermitian 2x2 matrix exists"),\n            (unit_det and odd and symmetry == \'antisymmetric\',\n             "No unit-determinant antisymmetric matrix exists in odd dimensions"),\n            (unit_det and odd and symmetry == \'antihermitian\',\n             "No unit-determinant antihermitian matrix exists in odd dimensions"),\n        )\n        for applies, message in unsupported:\n            if applies:\n                raise ConfigError(message)\n\n'
+_REFUSALS_TABLE_OK = '        symmetry = self.config[\'symmetry\']\n        is_complex = self.config[\'complex\']\n        zero_det = self.config[\'determinant\'] == 0\n        unit_det = self.config[\'determinant\'] == 1\n        odd = self.config[\'dimension\'] % 2 == 1\n        traceless_2x2 = self.config[\'traceless\'] and self.config[\'dimension\'] == 2\n        unsupported = (\n            (zero_det and self.config[\'traceless\'],\n             "Unable to generate zero determinant traceless matrices"),\n            (zero_det and symmetry == \'antisymmetric\' and is_complex,\n             "Unable to generate complex zero determinant antisymmetric matrices"),\n            (zero_det and symmetry == \'antisymmetric\' and not odd,\n             "Unable to generate real zero determinant antisymmetric matrices in even dimensions"),\n            (unit_det and traceless_2x2 and symmetry == \'diagonal\' and not is_complex,\n             "No real, traceless, unit-determinant, diagonal 2x2 matrix exists"),\n            (unit_det and traceless_2x2 and symmetry == \'symmetric\' and not is_complex,\n             "No real, traceless, unit-determinant, symmetric 2x2 matrix exists"),\n            (unit_det and traceless_2x2 and symmetry == \'hermitian\',\n             "No traceless, unit-determinant, Hermitian 2x2 matrix exists"),\n            (unit_det and odd and symmetry == \'antisymmetric\',\n             "No unit-determinant antisymmetric matrix exists in odd dimensions"),\n            (unit_det and odd and symmetry == \'antihermitian\',\n             "No unit-determinant antihermitian matrix exists in odd dimensions"),\n        )\n        for applies, message in unsupported:\n            if applies:\n                raise ConfigError(message)\n\n'
+_IDENT_SLIP = [("        self.config['shape'] = (self.config['dimension'], self.config['dimension'])\n", "        self.config['shape'] = (self.config['dimension'], self.config['dimension'])\n\n    def scaled_identity(self, scale):\n        field = complex if self.config['complex'] else float\n        return (scale * np.eye(self.config['dimension'])).astype(field)\n"), ("        array = scaling * np.eye(self.config['dimension'])\n", '        array = self.scaled_identity(scaling)\n'), ('            working = working - trace / dim * np.eye(dim)\n', '            working = working - self.scaled_identity(trace / dim)\n'), ("        return array - np.eye(self.config['dimension']) * eigenvalue\n", '        return array - self.scaled_identity(eigenvalue)\n')]
+_IDENT_OK = [("        self.config['shape'] = (self.config['dimension'], self.config['dimension'])\n", "        self.config['shape'] = (self.config['dimension'], self.config['dimension'])\n\n    def scaled_identity(self, scale):\n        return scale * np.eye(self.config['dimension'])\n"), ("        array = scaling * np.eye(self.config['dimension'])\n", '        array = self.scaled_identity(scaling)\n'), ('            working = working - trace / dim * np.eye(dim)\n', '            working = working - self.scaled_identity(trace / dim)\n'), ("        return array - np.eye(self.config['dimension']) * eigenvalue\n", '        return array - self.scaled_identity(eigenvalue)\n')]
 _LOOP_HEAD = "        loops = 0\n        while loops < 100:\n            loops += 1\n"
 
 _TRI_OLD = "        if self.config['triangular'] == 'upper':\n            return np.triu(array)\n        elif self.config['triangular'] == 'lower':\n            return np.tril(array)\n        return array\n\n\n"
@@ -1008,7 +1013,11 @@ MUTANTS = [
     Mutant('det-zero-early-return-negated', MATRIX, "        if np.abs(np.linalg.det(array)) < 5e-13:\n            # This is close", "        if not np.abs(np.linalg.det(array)) < 5e-13:\n            # This is close", 'D3'),
     Mutant('det-zero-eigvalsh-for-non-hermitian', MATRIX, "        elif ((self.config['symmetry'] == 'symmetric' and not self.config['complex'])", "        elif ((self.config['symmetry'] == 'symmetric' or not self.config['complex'])", 'D3'),
     Mutant('det-zero-complex-eigenvalue-for-real-sampler', MATRIX, "            if not self.config['complex']:\n                # We need to select a real eigenvalue.", "            if self.config['complex']:\n                # We need to select a real eigenvalue.", 'D3'),
+    Mutant('scaled-identity-helper-casts-by-the-ignored-complex-flag', MATRIX, _IDENT_SLIP, None, 'D3',
+           note='IdentityMatrixMultiples: a complex scalar loses its imaginary part (astype(float)); no-op for SquareMatrices'),
     # D4
+    Mutant('refusal-table-first-rule-uses-traceless-2x2', MATRIX, _REFUSALS_OLD, _REFUSALS_TABLE_SLIP, 'D4',
+           note='determinant=0 + traceless is refused only for dimension 2'),
     Mutant('exclusion-dropped-odd-antisymmetric', MATRIX, _ODD_ANTISYM, '', 'D4'),
     Mutant('exclusion-dropped-hermitian-2x2', MATRIX, _HERM_2X2, '', 'D4'),
     Mutant('exclusion-dropped-traceless-det0', MATRIX, _TL_DET0, '', 'D4'),
@@ -1040,6 +1049,8 @@ _POSITIVE_STARRED = """    if thetype == int:
 """
 
 BENIGN = [
+    Benign('refusals-as-ordered-table-and-loop', MATRIX, _REFUSALS_OLD, _REFUSALS_TABLE_OK),
+    Benign('scaled-identity-helper-without-cast', MATRIX, _IDENT_OK, None),
     Benign('positive-validator-with-starred-bounds', VALID, _POSITIVE_OLD, _POSITIVE_STARRED),
     Benign('odd-dimension-exclusions-as-a-loop', MATRIX, _ODD_ANTISYM + "                if self.config['symmetry'] == 'antihermitian':\n                    # Eigenvalues are all imaginary, so determinant is imaginary\n                    raise ConfigError(\"No unit-determinant antihermitian matrix exists in odd dimensions\")\n",
            "                for kind in ('antisymmetric', 'antihermitian'):\n                    if self.config['symmetry'] == kind:\n                        raise ConfigError('No unit-determinant {} matrix exists in odd dimensions'.format(kind))\n"),
